@@ -271,11 +271,13 @@ Qed.
 
 (* ------------------------------------------------------------------ doubles *)
 (* the hypothesis on the libc oracle: what "%.17g" prints for a finite double is
-   [-]digits[.digits][e(+|-)digits] with a lower-case e, far shorter than the 128-byte buffer *)
+   [-]digits[.digits][e(+|-)digits] with a lower-case e, far shorter than the 128-byte buffer,
+   the fraction not ending in 0 *)
 Definition g17_shape (n : numtok) : Prop :=
   num_ok n = true /\
   match n_exp n with Some (up, _, _) => up = false | None => True end /\
-  zlen (render_num n) < 126.
+  zlen (render_num n) < 126 /\
+  match n_frac n with Some f => last f 1 <> 48 | None => True end.   (* %g removes trailing zeros *)
 
 Lemma dec_eq_refl a : dec_eq a a.
 Proof. unfold dec_eq. reflexivity. Qed.
@@ -345,7 +347,7 @@ Lemma double_fixup_shape fl n0 :
   exists n', num_ok n' = true /\ render_num n' = double_fixup fl (render_num n0) /\
              dec_eq (num_val n') (num_val n0).
 Proof.
-  intros (Hok & Hup & Hlen) Hnz. destruct n0 as [neg i f e]. cbn [n_exp] in Hup.
+  intros (Hok & Hup & Hlen & _) Hnz. destruct n0 as [neg i f e]. cbn [n_exp] in Hup.
   pose proof Hok as Hok'. apply num_ok_iff in Hok'. destruct Hok' as (O1 & O2 & O3 & O4).
   destruct (digits1_forall _ O1) as [Hi Hine].
   rewrite render_num_eq in *. set (sg := if neg then [45] else [] : list byte) in *.
@@ -414,3 +416,667 @@ Proof.
         replace (Z.min (0 - (1 + 0)) (0 - 0)) with (-1) by lia.
         change (0 - (1 + 0) - -1) with 0. change (0 - 0 - -1) with 1. destruct neg; lia.
 Qed.
+
+(* ------------------------------------------------------------------ containers: text layout *)
+Fixpoint decorate (pre cl : list byte) (xs : list (list byte)) : list (list byte) :=
+  match xs with
+  | [] => []
+  | [x] => [pre ++ x ++ cl]
+  | x :: r => (pre ++ x) :: decorate pre cl r
+  end.
+
+Lemma sep_concat_cons sep x r : r <> [] -> sep_concat sep (x :: r) = x ++ sep ++ sep_concat sep r.
+Proof. destruct r; [congruence|reflexivity]. Qed.
+Lemma decorate_cons pre cl x r : r <> [] -> decorate pre cl (x :: r) = (pre ++ x) :: decorate pre cl r.
+Proof. destruct r; [congruence|reflexivity]. Qed.
+Lemma decorate_nonempty pre cl xs : xs <> [] -> decorate pre cl xs <> [].
+Proof. destruct xs as [|x [|y r]]; [congruence|discriminate|discriminate]. Qed.
+
+Lemma join_decorate pre cl xs : xs <> [] ->
+  sep_concat [44] (decorate pre cl xs) = join_children pre xs false ++ cl.
+Proof.
+  induction xs as [|x r IH]; [congruence|]. intros _. destruct r as [|y r'].
+  - cbn. rewrite app_nil_r, <- !app_assoc. reflexivity.
+  - rewrite decorate_cons by discriminate.
+    rewrite sep_concat_cons by (apply decorate_nonempty; discriminate).
+    rewrite IH by discriminate.
+    change (join_children pre (x :: y :: r') false) with (pre ++ x ++ [44] ++ join_children pre (y :: r') false).
+    rewrite <- !app_assoc. reflexivity.
+Qed.
+
+Definition item_text (it : ws * stx * ws) : list byte :=
+  render_ws (fst (fst it)) ++ render (snd (fst it)) ++ render_ws (snd it).
+Definition member_text (mb : ws * list schar * ws * ws * stx * ws) : list byte :=
+  match mb with (w0, k, w1, w2, v, w3) =>
+    render_ws w0 ++ render_string k ++ render_ws w1 ++ [58] ++ render_ws w2 ++ render v ++ render_ws w3 end.
+
+Lemma render_arr items w : items <> [] ->
+  render (SArr items w) = 91 :: sep_concat [44] (map item_text items) ++ [93].
+Proof. destruct items; [congruence|reflexivity]. Qed.
+Lemma render_obj members w : members <> [] ->
+  render (SObj members w) = 123 :: sep_concat [44] (map member_text members) ++ [125].
+Proof. destruct members; [congruence|reflexivity]. Qed.
+
+Fixpoint mk_items (pw cw : ws) (ss : list stx) : list (ws * stx * ws) :=
+  match ss with
+  | [] => []
+  | [s] => [(pw, s, cw)]
+  | s :: r => (pw, s, []) :: mk_items pw cw r
+  end.
+Fixpoint mk_members (pw kw cw : ws) (ks : list (list schar * stx)) : list (ws * list schar * ws * ws * stx * ws) :=
+  match ks with
+  | [] => []
+  | [ks1] => [(pw, fst ks1, [], kw, snd ks1, cw)]
+  | ks1 :: r => (pw, fst ks1, [], kw, snd ks1, []) :: mk_members pw kw cw r
+  end.
+
+Lemma map_items pw cw ss :
+  map item_text (mk_items pw cw ss) = decorate (render_ws pw) (render_ws cw) (map render ss).
+Proof.
+  induction ss as [|s r IH]; [reflexivity|]. destruct r as [|s2 r'].
+  - reflexivity.
+  - change (mk_items pw cw (s :: s2 :: r')) with ((pw, s, []) :: mk_items pw cw (s2 :: r')).
+    cbn [map]. rewrite decorate_cons by discriminate. cbn [map] in IH. rewrite IH.
+    unfold item_text at 1. cbn [fst snd render_ws map]. rewrite app_nil_r. reflexivity.
+Qed.
+Definition kv_text (kw : ws) (ks : list schar * stx) : list byte :=
+  render_string (fst ks) ++ [58] ++ render_ws kw ++ render (snd ks).
+Lemma map_members pw kw cw ks :
+  map member_text (mk_members pw kw cw ks) = decorate (render_ws pw) (render_ws cw) (map (kv_text kw) ks).
+Proof.
+  induction ks as [|s r IH]; [reflexivity|]. destruct r as [|s2 r'].
+  - cbn [mk_members map decorate]. unfold member_text, kv_text. cbn [render_ws map]. do 2 f_equal.
+    rewrite <- ?app_assoc. cbn [app]. rewrite <- ?app_assoc. reflexivity.
+  - change (mk_members pw kw cw (s :: s2 :: r')) with ((pw, fst s, [], kw, snd s, []) :: mk_members pw kw cw (s2 :: r')).
+    cbn [map]. rewrite decorate_cons by discriminate. cbn [map] in IH. rewrite IH.
+    unfold member_text at 1, kv_text at 1. cbn [render_ws map app]. rewrite app_nil_r. reflexivity.
+Qed.
+
+Lemma items_nonempty pw cw ss : ss <> [] -> mk_items pw cw ss <> [].
+Proof. destruct ss as [|s [|s2 r]]; [congruence|discriminate|discriminate]. Qed.
+Lemma members_nonempty pw kw cw ks : ks <> [] -> mk_members pw kw cw ks <> [].
+Proof. destruct ks as [|s [|s2 r]]; [congruence|discriminate|discriminate]. Qed.
+
+Lemma items_ok pw cw ss : forallb (fun it => stx_ok (snd (fst it))) (mk_items pw cw ss) = forallb stx_ok ss.
+Proof.
+  induction ss as [|s r IH]; [reflexivity|]. destruct r as [|s2 r']; [reflexivity|].
+  change (mk_items pw cw (s :: s2 :: r')) with ((pw, s, []) :: mk_items pw cw (s2 :: r')).
+  cbn [forallb fst snd] in *. rewrite IH. reflexivity.
+Qed.
+Lemma items_value pw cw ss : map (fun it => value (snd (fst it))) (mk_items pw cw ss) = map value ss.
+Proof.
+  induction ss as [|s r IH]; [reflexivity|]. destruct r as [|s2 r']; [reflexivity|].
+  change (mk_items pw cw (s :: s2 :: r')) with ((pw, s, []) :: mk_items pw cw (s2 :: r')).
+  cbn [map fst snd] in *. rewrite IH. reflexivity.
+Qed.
+Lemma members_ok pw kw cw ks :
+  forallb (fun mb => match mb with (_, k, _, _, v, _) => forallb schar_ok k && stx_ok v end) (mk_members pw kw cw ks)
+  = forallb (fun ks1 => forallb schar_ok (fst ks1) && stx_ok (snd ks1)) ks.
+Proof.
+  induction ks as [|s r IH]; [reflexivity|]. destruct r as [|s2 r']; [reflexivity|].
+  change (mk_members pw kw cw (s :: s2 :: r')) with ((pw, fst s, [], kw, snd s, []) :: mk_members pw kw cw (s2 :: r')).
+  cbn [forallb] in *. rewrite IH. reflexivity.
+Qed.
+Lemma members_value pw kw cw ks :
+  map (fun mb => match mb with (_, k, _, _, v, _) => (string_value k, value v) end) (mk_members pw kw cw ks)
+  = map (fun ks1 => (string_value (fst ks1), value (snd ks1))) ks.
+Proof.
+  induction ks as [|s r IH]; [reflexivity|]. destruct r as [|s2 r']; [reflexivity|].
+  change (mk_members pw kw cw (s :: s2 :: r')) with ((pw, fst s, [], kw, snd s, []) :: mk_members pw kw cw (s2 :: r')).
+  cbn [map] in *. rewrite IH. reflexivity.
+Qed.
+
+(* the whitespace the flags choose *)
+Definition indent_ws (fl : sflags) (level : nat) : ws :=
+  if pretty fl then (if pretty_tab fl then repeat WTab level else repeat WSp (2 * level)) else [].
+Definition prefix_ws (fl : sflags) (level : nat) : ws :=
+  (if pretty fl then [WLf] else []) ++ (if spaced fl && negb (pretty fl) then [WSp] else []) ++ indent_ws fl (S level).
+Definition close_ws (fl : sflags) (level : nat) (had : bool) : ws :=
+  (if pretty fl && had then WLf :: indent_ws fl level else []) ++ (if spaced fl && negb (pretty fl) then [WSp] else []).
+Definition colon_ws (fl : sflags) : ws := if spaced fl then [WSp] else [].
+
+Lemma render_ws_app a b : render_ws (a ++ b) = render_ws a ++ render_ws b.
+Proof. apply map_app. Qed.
+Lemma render_ws_repeat c n : render_ws (repeat c n) = repeat (wsc_byte c) n.
+Proof. unfold render_ws. induction n; cbn; [reflexivity|]. rewrite IHn. reflexivity. Qed.
+Lemma render_indent fl level : render_ws (indent_ws fl level) = indent fl level.
+Proof. unfold indent_ws, indent. destruct (pretty fl), (pretty_tab fl); try reflexivity; apply render_ws_repeat. Qed.
+Lemma render_prefix fl level : render_ws (prefix_ws fl level) = child_prefix fl level.
+Proof.
+  unfold prefix_ws, child_prefix. rewrite !render_ws_app, render_indent.
+  destruct (pretty fl), (spaced fl); reflexivity.
+Qed.
+Lemma close_eq fl level had c : container_close fl level had c = render_ws (close_ws fl level had) ++ [c].
+Proof.
+  unfold container_close, close_ws. rewrite render_ws_app.
+  destruct (pretty fl && had); cbn [render_ws map]; fold (render_ws (indent_ws fl level)); rewrite ?render_indent;
+    destruct (spaced fl && negb (pretty fl)); cbn [render_ws map app wsc_byte]; rewrite <- ?app_assoc; reflexivity.
+Qed.
+Lemma colon_eq fl : colon fl = [58] ++ render_ws (colon_ws fl).
+Proof. unfold colon, colon_ws. destruct (spaced fl); reflexivity. Qed.
+
+Lemma colored_nocolor fl col body : color fl = false -> colored fl col body = body.
+Proof. intros H. unfold colored. rewrite H. reflexivity. Qed.
+
+(* ------------------------------------------------------------------ the guard: trees the property speaks about *)
+(* [P] at every node *)
+Fixpoint jv_Forall (P : jv -> Prop) (v : jv) : Prop :=
+  P v /\
+  match v with
+  | JArr l => (fix go (l : list jv) : Prop := match l with [] => True | x :: r => jv_Forall P x /\ go r end) l
+  | JObj l => (fix go (l : list (list byte * jv)) : Prop :=
+                 match l with [] => True | x :: r => jv_Forall P (snd x) /\ go r end) l
+  | _ => True
+  end.
+Lemma jv_Forall_here P v : jv_Forall P v -> P v.
+Proof. destruct v; cbn; tauto. Qed.
+Lemma jv_Forall_arr P l : jv_Forall P (JArr l) -> Forall (jv_Forall P) l.
+Proof. cbn [jv_Forall]. intros [_ H]. induction l as [|x r IH]; constructor; [tauto|apply IH; tauto]. Qed.
+Lemma jv_Forall_obj P l : jv_Forall P (JObj l) -> Forall (fun kv => jv_Forall P (snd kv)) l.
+Proof. cbn [jv_Forall]. intros [_ H]. induction l as [|x r IH]; constructor; [tauto|apply IH; tauto]. Qed.
+
+Section Valid.
+Variable fmt17 : Z -> list byte.
+
+(* hypothesis on the libc oracle (validated against libc on every check run) *)
+Definition fmt17_ok : Prop :=
+  forall bits, dbl_finite bits = true -> exists n, g17_shape n /\ render_num n = fmt17 bits.
+
+(* what a node must satisfy for the property to speak about it:
+   strings and member names are byte strings; a uint64 node is not negative;
+   a double printed through %.17g is finite (NaN / Infinity are not JSON) and, with
+   NOZERO, its %.17g text has no exponent (the guard of the refuted part);
+   a retained text (json_object_new_double_s, parser) is an RFC 8259 number token *)
+Definition node_ok (fl : sflags) (v : jv) : Prop :=
+  match v with
+  | JUint z => 0 <= z
+  | JStr s => Forall byte_ok s
+  | JObj l => Forall (fun kv => Forall byte_ok (fst kv)) l
+  | JDouble bits None => dbl_finite bits = true /\ (nozero fl = false \/ has_byte 101 (fmt17 bits) = false)
+  | JDouble bits (Some t) => exists n, num_ok n = true /\ render_num n = c_str t
+  | _ => True
+  end.
+
+(* "the RFC value [r] is exactly the tree [v]": integers exactly; a double by the exact
+   decimal value of its %.17g text (resp. of its retained text) — see [double_reads_back];
+   strings byte for byte; members in order, names as C strings *)
+Inductive denotes : rv -> jv -> Prop :=
+| DNull : denotes RNull JNull
+| DBool b : denotes (RBool b) (JBool b)
+| DInt z : denotes (RNum z 0) (JInt z)
+| DUint z : denotes (RNum z 0) (JUint z)
+| DDbl m e bits n0 : num_ok n0 = true -> render_num n0 = fmt17 bits -> dec_eq (m, e) (num_val n0) ->
+                     denotes (RNum m e) (JDouble bits None)
+| DDblText m e bits t n0 : num_ok n0 = true -> render_num n0 = c_str t -> dec_eq (m, e) (num_val n0) ->
+                     denotes (RNum m e) (JDouble bits (Some t))
+| DStr s : denotes (RStr s) (JStr s)
+| DArr rs vs : Forall2 denotes rs vs -> denotes (RArr rs) (JArr vs)
+| DObj rs vs : Forall2 (fun rk vk => fst rk = c_str (fst vk) /\ denotes (snd rk) (snd vk)) rs vs ->
+               denotes (RObj rs) (JObj vs).
+
+Lemma child_text_nocolor fl lv x : color fl = false ->
+  child_text fl (serialize fmt17 fl lv) x = serialize fmt17 fl lv x.
+Proof. intros H. destruct x; try reflexivity. cbn. apply colored_nocolor. exact H. Qed.
+
+Lemma double_text_finite fl bits : dbl_finite bits = true -> double_text fmt17 fl bits = double_fixup fl (fmt17 bits).
+Proof.
+  unfold dbl_finite, double_text, dbl_is_nan, dbl_is_inf. intros H. apply negb_true_iff in H. rewrite H. reflexivity.
+Qed.
+
+Definition valid_for (fl : sflags) (level : nat) (v : jv) : Prop :=
+  exists s, stx_ok s = true /\ render s = serialize fmt17 fl level v /\ denotes (value s) v.
+
+Lemma ser_valid_rec (Hfmt : fmt17_ok) fl : color fl = false ->
+  forall v, jv_Forall (node_ok fl) v -> forall level, valid_for fl level v.
+Proof.
+  intros Hc. induction v using jv_ind'; intros G level; pose proof (jv_Forall_here _ _ G) as Hn; cbn [node_ok] in Hn.
+  - exists SNull. repeat split. constructor.
+  - exists (if b then STrue else SFalse). cbn [serialize]. rewrite colored_nocolor by exact Hc.
+    destruct b; repeat split; constructor.
+  - destruct (int_token z) as (n & H1 & H2 & H3). exists (SNum n). cbn [stx_ok render value serialize].
+    rewrite H3. repeat split; auto. constructor.
+  - destruct (uint_token z Hn) as (n & H1 & H2 & H3). exists (SNum n). cbn [stx_ok render value serialize].
+    rewrite H3. repeat split; auto. constructor.
+  - destruct t as [t|].
+    + destruct Hn as (n & H1 & H2). exists (SNum n). cbn [stx_ok render value serialize]. repeat split; auto.
+      apply (DDblText _ _ _ _ n); auto. destruct (num_val n). apply dec_eq_refl.
+    + destruct Hn as (Hfin & Hnz). destruct (Hfmt b Hfin) as (n0 & Hshape & Hr).
+      rewrite <- Hr in Hnz. destruct (double_fixup_shape fl n0 Hshape Hnz) as (n' & H1 & H2 & H3).
+      exists (SNum n'). cbn [stx_ok render value serialize]. rewrite double_text_finite by exact Hfin.
+      rewrite <- Hr. repeat split; auto. apply (DDbl _ _ _ n0); [apply Hshape|exact Hr|].
+      destruct (num_val n'). exact H3.
+  - destruct (string_spec fl s Hn) as (S1 & S2 & S3). exists (SStr (map (char_stx fl) s)).
+    cbn [stx_ok render value serialize]. rewrite colored_nocolor by exact Hc. rewrite S3. repeat split; auto. constructor.
+  - (* arrays *)
+    pose proof (jv_Forall_arr _ _ G) as Gl.
+    assert (Hall : Forall (fun x => exists s, stx_ok s = true /\ render s = serialize fmt17 fl (S level) x /\ denotes (value s) x) l).
+    { clear G Hn. induction H as [|x r Hx _ IH]; [constructor|]. inversion Gl; subst. constructor; [apply Hx; assumption|apply IH; assumption]. }
+    apply Forall_exists_list in Hall. destruct Hall as [ss Hss].
+    assert (Hmap : map render ss = map (child_text fl (serialize fmt17 fl (S level))) l).
+    { clear -Hss Hc. induction Hss as [|x s r rs (_ & Hr & _) _ IH]; [reflexivity|]. cbn [map].
+      rewrite IH, child_text_nocolor by exact Hc. f_equal. exact Hr. }
+    assert (Hok : forallb stx_ok ss = true).
+    { clear -Hss. induction Hss as [|x s r rs (Ho & _) _ IH]; [reflexivity|]. cbn. rewrite Ho, IH. reflexivity. }
+    assert (Hden : Forall2 denotes (map value ss) l).
+    { clear -Hss. induction Hss as [|x s r rs (_ & _ & Hd) _ IH]; constructor; assumption. }
+    assert (Hlen : ss = [] <-> l = []).
+    { clear -Hss. destruct Hss; split; intros; (reflexivity || discriminate). }
+    unfold valid_for. cbn [serialize]. rewrite <- Hmap, close_eq.
+    destruct l as [|x0 l'].
+    + assert (ss = []) by (apply Hlen; reflexivity). subst ss.
+      exists (SArr [] (close_ws fl level false)). repeat split. constructor. constructor.
+    + assert (Hne : ss <> []) by (intros E; apply Hlen in E; discriminate).
+      exists (SArr (mk_items (prefix_ws fl level) (close_ws fl level true) ss) []). split; [|split].
+      * cbn [stx_ok]. rewrite items_ok. exact Hok.
+      * rewrite render_arr by (apply items_nonempty; exact Hne).
+        rewrite map_items, join_decorate by (destruct ss; [congruence|discriminate]).
+        rewrite render_prefix. cbn [nonempty app]. rewrite <- !app_assoc. reflexivity.
+      * cbn [value]. rewrite items_value. constructor. exact Hden.
+  - (* objects *)
+    pose proof (jv_Forall_obj _ _ G) as Gl.
+    assert (Hall : Forall (fun kv => exists s, stx_ok s = true /\ render s = serialize fmt17 fl (S level) (snd kv) /\ denotes (value s) (snd kv)) l).
+    { clear G Hn. induction H as [|x r Hx _ IH]; [constructor|]. inversion Gl; subst. constructor; [apply Hx; assumption|apply IH; assumption]. }
+    apply Forall_exists_list in Hall. destruct Hall as [ss Hss].
+    set (keys := map (fun kv => map (char_stx fl) (c_str (fst kv))) l).
+    set (ks := combine keys ss).
+    assert (Hks : Forall2 (fun kv ks1 =>
+              render_string (fst ks1) = quoted fl (c_str (fst kv)) /\ forallb schar_ok (fst ks1) = true /\
+              string_value (fst ks1) = c_str (fst kv) /\
+              stx_ok (snd ks1) = true /\ render (snd ks1) = serialize fmt17 fl (S level) (snd kv) /\
+              denotes (value (snd ks1)) (snd kv)) l ks).
+    { subst ks keys. clear -Hss Hn. induction Hss as [|x s r rs (H1 & H2 & H3) _ IH]; [constructor|].
+      inversion Hn; subst. cbn [map combine]. constructor; [|apply IH; assumption].
+      destruct (string_spec fl (c_str (fst x)) (c_str_bytes_ok _ H4)) as (S1 & S2 & S3). cbn [fst snd]. tauto. }
+    clearbody ks. clear keys Hss.
+    assert (Hmap : map (kv_text (colon_ws fl)) ks =
+                   map (fun kv => colored fl c_blue (quoted fl (c_str (fst kv))) ++ colon fl ++
+                                  child_text fl (serialize fmt17 fl (S level)) (snd kv)) l).
+    { clear -Hks Hc. induction Hks as [|x s r rs (K1 & _ & _ & _ & K5 & _) _ IH]; [reflexivity|]. cbn [map].
+      rewrite IH, child_text_nocolor, colored_nocolor, colon_eq by exact Hc. f_equal.
+      unfold kv_text. rewrite K1, K5, <- !app_assoc. reflexivity. }
+    assert (Hok : forallb (fun ks1 => forallb schar_ok (fst ks1) && stx_ok (snd ks1)) ks = true).
+    { clear -Hks. induction Hks as [|x s r rs (_ & K2 & _ & K4 & _) _ IH]; [reflexivity|]. cbn [forallb]. rewrite K2, K4, IH. reflexivity. }
+    assert (Hden : Forall2 (fun rk vk => fst rk = c_str (fst vk) /\ denotes (snd rk) (snd vk))
+                     (map (fun ks1 => (string_value (fst ks1), value (snd ks1))) ks) l).
+    { clear -Hks. induction Hks as [|x s r rs (_ & _ & K3 & _ & _ & K6) _ IH]; constructor; [|exact IH]. cbn [fst snd]. tauto. }
+    assert (Hlen : ks = [] <-> l = []).
+    { clear -Hks. destruct Hks; split; intros; (reflexivity || discriminate). }
+    unfold valid_for. cbn [serialize]. rewrite <- Hmap, close_eq.
+    destruct l as [|x0 l'].
+    + assert (ks = []) by (apply Hlen; reflexivity). subst ks.
+      exists (SObj [] (close_ws fl level false)). repeat split. constructor. constructor.
+    + assert (Hne : ks <> []) by (intros E; apply Hlen in E; discriminate).
+      exists (SObj (mk_members (prefix_ws fl level) (colon_ws fl) (close_ws fl level true) ks) []). split; [|split].
+      * cbn [stx_ok]. rewrite members_ok. exact Hok.
+      * rewrite render_obj by (apply members_nonempty; exact Hne).
+        rewrite map_members, join_decorate by (destruct ks; [congruence|discriminate]).
+        rewrite render_prefix. cbn [nonempty app]. rewrite <- !app_assoc. reflexivity.
+      * cbn [value]. rewrite members_value. constructor. exact Hden.
+Qed.
+
+(* C02, first sentence.  For every tree and every flag word without COLOR: RFC 8259 text that
+   denotes exactly the tree (no surrounding whitespace). *)
+Theorem ser_is_valid (Hfmt : fmt17_ok) fl v : color fl = false -> jv_Forall (node_ok fl) v ->
+  exists s, stx_ok s = true /\ render s = serialize fmt17 fl 0 v /\ denotes (value s) v.
+Proof. intros Hc G. exact (ser_valid_rec Hfmt fl Hc v G 0%nat). Qed.
+
+Corollary ser_is_rfc8259 (Hfmt : fmt17_ok) fl v : color fl = false -> jv_Forall (node_ok fl) v ->
+  rfc8259_text (serialize fmt17 fl 0 v).
+Proof.
+  intros Hc G. destruct (ser_is_valid Hfmt fl v Hc G) as (s & H1 & H2 & _).
+  exists [], s, []. split; [exact H1|]. cbn. rewrite app_nil_r. symmetry. exact H2.
+Qed.
+
+(* the reported length is the text length (json_object_to_json_string_length) *)
+Lemma reported_length flags v : snd (to_json_string_length fmt17 flags v) = zlen (fst (to_json_string_length fmt17 flags v)).
+Proof. reflexivity. Qed.
+
+End Valid.
+
+(* ------------------------------------------------------------------ a double token reads back as the double *)
+(* For ANY reader of number tokens that depends only on the exact decimal value and that
+   maps the %.17g text of a double back to that double (the 17-significant-digit round trip
+   of IEEE 754, validated against libc on every run), the token the serializer emitted
+   reads back as the double — with ".0" appended, with the fraction trimmed, as is. *)
+Theorem double_reads_back fmt17 (reads : Z * Z -> Z) m e bits :
+  (forall a b, dec_eq a b -> reads a = reads b) ->
+  (forall n0, num_ok n0 = true -> render_num n0 = fmt17 bits -> reads (num_val n0) = bits) ->
+  denotes fmt17 (RNum m e) (JDouble bits None) -> reads (m, e) = bits.
+Proof.
+  intros Hp Hr Hd. inversion Hd as [| | | |m' e' b' n0 Hok Hrn Heq| | | |]; subst.
+  rewrite (Hp _ _ Heq). apply Hr; assumption.
+Qed.
+
+(* ------------------------------------------------------------------ significant bytes *)
+Lemma sig_run_app st a b :
+  sig_run st (a ++ b) = (fst (sig_run (fst (sig_run st a)) b), snd (sig_run st a) ++ snd (sig_run (fst (sig_run st a)) b)).
+Proof.
+  revert st. induction a as [|c a IH]; intros st; cbn [app sig_run].
+  - cbn. destruct (sig_run st b); reflexivity.
+  - destruct (sig_step st c) as [st1 o1]. rewrite IH.
+    destruct (sig_run st1 a) as [st2 o2]. cbn [fst snd]. destruct (sig_run st2 b) as [st3 o3]. cbn [fst snd].
+    rewrite app_assoc. reflexivity.
+Qed.
+(* two pieces that both end between tokens *)
+Lemma sig_run_app_out a b oa ob :
+  sig_run LOut a = (LOut, oa) -> sig_run LOut b = (LOut, ob) -> sig_run LOut (a ++ b) = (LOut, oa ++ ob).
+Proof. intros Ha Hb. rewrite sig_run_app, Ha. cbn [fst snd]. rewrite Hb. reflexivity. Qed.
+
+Lemma sig_ws w : sig_run LOut (render_ws w) = (LOut, []).
+Proof. induction w as [|c w IH]; [reflexivity|]. cbn [render_ws map sig_run]. fold (render_ws w). destruct c; cbn; rewrite IH; reflexivity. Qed.
+
+(* an atom: no whitespace, ESC or quote *)
+Definition plain_byte (c : byte) : bool := negb (is_ws_byte c) && negb (c =? 27) && negb (c =? 34).
+Lemma sig_plain t : forallb plain_byte t = true -> sig_run LOut t = (LOut, t).
+Proof.
+  induction t as [|c t IH]; [reflexivity|]. cbn [forallb]. intros H. apply andb_true_iff in H. destruct H as [Hc Ht].
+  cbn [sig_run sig_step]. unfold plain_byte in Hc. apply andb_true_iff in Hc. destruct Hc as [Hc H34].
+  apply andb_true_iff in Hc. destruct Hc as [Hws H27]. apply negb_true_iff in Hws, H27, H34.
+  rewrite Hws, H27, H34, (IH Ht). reflexivity.
+Qed.
+Lemma digits_plain ds : forallb digit ds = true -> forallb plain_byte ds = true.
+Proof.
+  induction ds as [|c ds IH]; [reflexivity|]. cbn [forallb]. intros H. apply andb_true_iff in H. destruct H as [Hc Hd].
+  rewrite (IH Hd), andb_true_r. unfold digit in Hc. unfold plain_byte, is_ws_byte. lia.
+Qed.
+Lemma num_plain n : num_ok n = true -> forallb plain_byte (render_num n) = true.
+Proof.
+  destruct n as [neg i f e]. intros H. apply num_ok_iff in H. destruct H as (O1 & _ & O3 & O4).
+  rewrite render_num_eq, !forallb_app. apply digits1_forall in O1. destruct O1 as [O1 _].
+  rewrite (digits_plain _ O1). replace (forallb plain_byte (if neg then [45] else [])) with true by (destruct neg; reflexivity).
+  cbn [andb]. apply andb_true_iff. split.
+  - destruct f as [fr|]; [|reflexivity]. apply digits1_forall in O3. destruct O3 as [O3 _]. cbn [render_frac forallb].
+    rewrite (digits_plain _ O3). reflexivity.
+  - destruct e as [[[up sg] ds]|]; [|reflexivity]. apply digits1_forall in O4. destruct O4 as [O4 _].
+    cbn [render_exp forallb]. rewrite forallb_app, (digits_plain _ O4). destruct up, sg; reflexivity.
+Qed.
+
+Definition cfl : sflags := fl_ns true.      (* the canonical spelling: compact, solidus unescaped *)
+
+(* string literals: every escape form survives, except that of the solidus *)
+Definition char_sig_ok (ns : bool) (c : byte) : bool :=
+  match sig_run LStr (escape_char (fl_ns ns) c) with
+  | (LStr, o) => bytes_eqb o (escape_char cfl c)
+  | _ => false
+  end.
+Lemma char_sig fl c : byte_ok c -> sig_run LStr (escape_char fl c) = (LStr, escape_char cfl c).
+Proof.
+  intros Hc.
+  assert (Ht : forallb (char_sig_ok true) (zrange 0 256) = true) by (vm_compute; reflexivity).
+  assert (Hf : forallb (char_sig_ok false) (zrange 0 256) = true) by (vm_compute; reflexivity).
+  rewrite escape_char_ns.
+  assert (H : char_sig_ok (noslash fl) c = true).
+  { destruct (noslash fl); [apply (zrange_forall _ _ 0 Ht)|apply (zrange_forall _ _ 0 Hf)]; unfold byte_ok in Hc; lia. }
+  unfold char_sig_ok in H. destruct (sig_run LStr (escape_char (fl_ns (noslash fl)) c)) as [[] o]; try discriminate.
+  apply bytes_eqb_eq in H. rewrite H. reflexivity.
+Qed.
+Lemma escape_sig fl s : Forall byte_ok s -> sig_run LStr (escape_str fl s) = (LStr, escape_str cfl s).
+Proof.
+  induction 1 as [|c s Hc _ IH]; [reflexivity|]. unfold escape_str in *. cbn [flat_map].
+  rewrite sig_run_app, (char_sig fl c Hc). cbn [fst snd]. rewrite IH. reflexivity.
+Qed.
+Lemma quoted_sig fl s : Forall byte_ok s -> sig_run LOut (quoted fl s) = (LOut, quoted cfl s).
+Proof.
+  intros H. unfold quoted. change (34 :: escape_str fl s ++ [34]) with ([34] ++ escape_str fl s ++ [34]).
+  rewrite sig_run_app. change (sig_run LOut [34]) with (LStr, [34]). cbn [fst snd].
+  rewrite sig_run_app, (escape_sig fl s H). cbn [fst snd]. reflexivity.
+Qed.
+Lemma colored_sig fl col body o : In col [c_green; c_blue; c_magenta] ->
+  sig_run LOut body = (LOut, o) -> sig_run LOut (colored fl col body) = (LOut, o).
+Proof.
+  intros Hin Hb. unfold colored. destruct (color fl); [|exact Hb].
+  assert (Hcol : sig_run LOut col = (LOut, [])) by (cbn in Hin; destruct Hin as [<-|[<-|[<-|[]]]]; reflexivity).
+  rewrite (sig_run_app_out col (body ++ c_reset) [] o Hcol); [reflexivity|].
+  rewrite <- (app_nil_r o). apply sig_run_app_out; [exact Hb|reflexivity].
+Qed.
+
+(* number tokens of num_ok shape: where the decimal point and the comma are *)
+Lemma render_num_split neg i f e : num_ok (mknum neg i f e) = true ->
+  split_at 44 (render_num (mknum neg i f e)) = None /\
+  split_at 46 (render_num (mknum neg i f e)) =
+    match f with Some fr => Some ((if neg then [45] else []) ++ i, fr ++ render_exp e) | None => None end.
+Proof.
+  intros Hok. apply num_ok_iff in Hok. destruct Hok as (O1 & O2 & O3 & O4).
+  destruct (digits1_forall _ O1) as [Hi Hine].
+  rewrite render_num_eq. set (sg := if neg then [45] else [] : list byte) in *.
+  assert (Hsg : forall c, digit c = false -> c <> 45 -> has_byte c (sg ++ i) = false).
+  { intros c Hc H45. rewrite has_byte_app, (digits_no_byte c i Hi Hc). subst sg. destruct neg; cbn [has_byte]; lia. }
+  assert (Hex : forall c, digit c = false -> c <> 101 -> c <> 69 -> c <> 43 -> c <> 45 -> has_byte c (render_exp e) = false).
+  { intros c ? ? ? ? ?. apply no_byte_exp; auto. destruct e as [[[? ?] ?]|]; [exact O4|exact I]. }
+  split.
+  - apply split_at_none. rewrite (has_byte_app 44 (sg ++ i)), (Hsg 44) by (reflexivity || lia).
+    rewrite has_byte_app, (Hex 44) by (reflexivity || lia).
+    destruct f as [fr|]; cbn [render_frac has_byte]; [|reflexivity].
+    destruct (digits1_forall _ O3) as [Hfd _]. rewrite (digits_no_byte 44 fr Hfd eq_refl). reflexivity.
+  - destruct f as [fr|]; cbn [render_frac].
+    + change ((46 :: fr) ++ render_exp e) with (46 :: fr ++ render_exp e).
+      apply split_at_first. apply Hsg; [reflexivity|lia].
+    + cbn [app]. apply split_at_none. rewrite has_byte_app, (Hsg 46), (Hex 46) by (reflexivity || lia). reflexivity.
+Qed.
+
+(* NOZERO changes nothing on a %.17g text without exponent (and is not consulted otherwise) *)
+Lemma double_fixup_flags fl n0 :
+  g17_shape n0 -> (nozero fl = false \/ has_byte 101 (render_num n0) = false) ->
+  double_fixup fl (render_num n0) = double_fixup flags_plain (render_num n0).
+Proof.
+  intros (Hok & Hup & Hlen & Hg) Hnz. destruct n0 as [neg i f e]. cbn [n_exp n_frac] in Hup, Hg.
+  destruct (render_num_split neg i f e Hok) as [H44 H46].
+  unfold double_fixup. rewrite !double_fixup_eq by assumption. rewrite H46.
+  destruct f as [fr|]; [|reflexivity]. cbn [nozero flags_plain].
+  destruct (nozero fl) eqn:Enz; [|reflexivity].
+  destruct Hnz as [Hnz|Hnz]; [discriminate|].
+  pose proof Hok as Hok'. apply num_ok_iff in Hok'. destruct Hok' as (O1 & O2 & O3 & O4).
+  assert (He : e = None).
+  { rewrite render_num_eq, !has_byte_app in Hnz.
+    rewrite (has101_exp e Hup) in Hnz by (destruct e as [[[? ?] ?]|]; [exact O4|exact I]).
+    destruct e; [rewrite !orb_true_r in Hnz; discriminate|reflexivity]. }
+  subst e. cbn [render_exp]. rewrite app_nil_r.
+  unfold nozero_trim, nozero_trim_with, nozero_span. rewrite app_nil_r, (trim_zeros_id fr Hg).
+  cbv zeta. rewrite render_num_eq in *. cbn [render_frac render_exp] in *. rewrite app_nil_r in *.
+  replace (zlen (((if neg then [45] else []) ++ i) ++ 46 :: fr) >=? 128) with false by lia.
+  cbv iota. apply zfirstn_all. lia.
+Qed.
+
+Section Flags.
+Variable fmt17 : Z -> list byte.
+Hypothesis Hfmt : fmt17_ok fmt17.
+
+Lemma node_ok_plain fl v : node_ok fmt17 fl v -> node_ok fmt17 flags_plain v.
+Proof. destruct v as [| | | |b [t|]| | |]; cbn; try tauto. all: intros [H _]; split; [exact H|left; reflexivity]. Qed.
+Lemma jv_Forall_impl (P Q : jv -> Prop) : (forall v, P v -> Q v) -> forall v, jv_Forall P v -> jv_Forall Q v.
+Proof.
+  intros HPQ. induction v using jv_ind'; cbn [jv_Forall]; intros [Hh Ht]; (split; [apply HPQ; exact Hh|]); try exact I.
+  - clear Hh. induction H as [|x r Hx _ IH]; [exact I|]. destruct Ht as [T1 T2]. split; [apply Hx; exact T1|apply IH; exact T2].
+  - clear Hh. induction H as [|x r Hx _ IH]; [exact I|]. destruct Ht as [T1 T2]. split; [apply Hx; exact T1|apply IH; exact T2].
+Qed.
+
+Lemma double_sig fl bits : node_ok fmt17 fl (JDouble bits None) ->
+  sig_run LOut (double_text fmt17 fl bits) = (LOut, double_text fmt17 cfl bits).
+Proof.
+  intros (Hfin & Hnz). rewrite !double_text_finite by exact Hfin.
+  destruct (Hfmt bits Hfin) as (n0 & Hshape & Hr). rewrite <- Hr in *.
+  rewrite (double_fixup_flags fl n0 Hshape Hnz).
+  rewrite (double_fixup_flags cfl n0 Hshape) by (left; reflexivity).
+  destruct (double_fixup_shape flags_plain n0 Hshape) as (n' & H1 & H2 & _); [left; reflexivity|].
+  rewrite <- H2. apply sig_plain, num_plain, H1.
+Qed.
+
+Lemma dec_u_plain z : 0 <= z -> forallb plain_byte (dec_u z) = true.
+Proof. intros Hz. destruct (dec_u_spec z Hz) as (H & _). apply digits1_forall in H. apply digits_plain, H. Qed.
+
+Lemma close_sig fl level had c : plain_byte c = true ->
+  sig_run LOut (container_close fl level had c) = (LOut, container_close cfl 0 had c).
+Proof.
+  intros Hc. rewrite close_eq. unfold container_close, cfl, fl_ns. cbn [pretty spaced andb negb app].
+  rewrite <- (app_nil_l [c]) at 2. apply sig_run_app_out; [apply sig_ws|]. apply sig_plain. cbn. rewrite Hc. reflexivity.
+Qed.
+
+(* the children of a container *)
+Lemma join_sig pre (xs ys : list (list byte)) :
+  sig_run LOut pre = (LOut, []) ->
+  Forall2 (fun x y => sig_run LOut x = (LOut, y)) xs ys ->
+  forall had, sig_run LOut (join_children pre xs had) = (LOut, join_children [] ys had).
+Proof.
+  intros Hpre H. induction H as [|x y xs ys Hxy _ IH]; intros had; [reflexivity|].
+  cbn [join_children app].
+  apply sig_run_app_out; [destruct had; reflexivity|].
+  rewrite <- (app_nil_l (y ++ _)). apply sig_run_app_out; [exact Hpre|].
+  apply sig_run_app_out; [exact Hxy|apply IH].
+Qed.
+
+Lemma child_sig fl x level level' :
+  (jv_Forall (node_ok fmt17 fl) x -> forall l l', sig_run LOut (serialize fmt17 fl l x) = (LOut, serialize fmt17 cfl l' x)) ->
+  jv_Forall (node_ok fmt17 fl) x ->
+  sig_run LOut (child_text fl (serialize fmt17 fl level) x) = (LOut, child_text cfl (serialize fmt17 cfl level') x).
+Proof.
+  intros Hrec G. destruct x; cbn [child_text]; try (apply Hrec; exact G).
+  apply colored_sig; [cbn; tauto|reflexivity].
+Qed.
+
+Lemma ser_sig fl : forall v, jv_Forall (node_ok fmt17 fl) v -> forall level level',
+  sig_run LOut (serialize fmt17 fl level v) = (LOut, serialize fmt17 cfl level' v).
+Proof.
+  induction v using jv_ind'; intros G level level'; pose proof (jv_Forall_here _ _ G) as Hn; cbn [node_ok] in Hn.
+  - reflexivity.
+  - cbn [serialize]. apply colored_sig; [cbn; tauto|]. destruct b; reflexivity.
+  - cbn [serialize]. apply sig_plain. destruct (int_token z) as (n & H1 & H2 & _). rewrite <- H2. apply num_plain, H1.
+  - cbn [serialize]. apply sig_plain, dec_u_plain, Hn.
+  - destruct t as [t|]; cbn [serialize].
+    + destruct Hn as (n & H1 & H2). rewrite <- H2. apply sig_plain, num_plain, H1.
+    + apply double_sig. exact Hn.
+  - cbn [serialize]. apply colored_sig; [cbn; tauto|]. unfold colored, cfl, fl_ns. cbn [color]. apply quoted_sig, Hn.
+  - (* arrays *)
+    pose proof (jv_Forall_arr _ _ G) as Gl. cbn [serialize].
+    apply (sig_run_app_out [91] _ [91]); [reflexivity|].
+    apply sig_run_app_out.
+    + apply join_sig; [rewrite <- render_prefix; apply sig_ws|].
+      clear G Hn. induction H as [|x r Hx _ IH]; [constructor|]. inversion Gl; subst. cbn [map].
+      constructor; [|apply IH; assumption].
+      apply child_sig; assumption.
+    + replace (container_close cfl level' (nonempty l) 93) with (container_close cfl 0 (nonempty l) 93) by reflexivity.
+      apply close_sig. reflexivity.
+  - (* objects *)
+    pose proof (jv_Forall_obj _ _ G) as Gl. cbn [serialize].
+    apply (sig_run_app_out [123] _ [123]); [reflexivity|].
+    apply sig_run_app_out.
+    + apply join_sig; [rewrite <- render_prefix; apply sig_ws|].
+      clear G. induction H as [|x r Hx _ IH]; [constructor|]. inversion Gl; subst. inversion Hn; subst. cbn [map].
+      constructor; [|apply IH; assumption].
+      apply sig_run_app_out.
+      * apply colored_sig; [cbn; tauto|]. unfold colored, cfl, fl_ns. cbn [color]. apply quoted_sig, c_str_bytes_ok. assumption.
+      * apply sig_run_app_out; [unfold colon, cfl, fl_ns; cbn [spaced]; destruct (spaced fl); reflexivity|].
+        apply child_sig; assumption.
+    + replace (container_close cfl level' (nonempty l) 125) with (container_close cfl 0 (nonempty l) 125) by reflexivity.
+      apply close_sig. reflexivity.
+Qed.
+
+(* C02, second sentence, under the guard: formatting flags (all 64 words, COLOR included)
+   change only insignificant whitespace, colour sequences and the escape form of the solidus.
+   Guard (inside [node_ok]): NOZERO is off, or no %.17g text in the tree has an exponent. *)
+Theorem flags_only_whitespace_partial fl v : jv_Forall (node_ok fmt17 fl) v ->
+  significant (serialize fmt17 fl 0 v) = significant (serialize fmt17 flags_plain 0 v).
+Proof.
+  intros G. unfold significant. rewrite (ser_sig fl v G 0%nat 0%nat).
+  rewrite (ser_sig flags_plain v (jv_Forall_impl _ _ (node_ok_plain fl) v G) 0%nat 0%nat). reflexivity.
+Qed.
+
+End Flags.
+
+(* the full statement (no NOZERO guard) *)
+Definition flags_only_whitespace : Prop :=
+  forall fmt17, fmt17_ok fmt17 -> forall fl v,
+    jv_Forall (node_ok fmt17 (mkfl (spaced fl) (pretty fl) false (pretty_tab fl) (noslash fl) (color fl))) v ->
+    significant (serialize fmt17 fl 0 v) = significant (serialize fmt17 flags_plain 0 v).
+
+(* ... is refuted by the code as written.  Class "nozero_eats_exponent": the double 1.5e+20
+   (bits 0x442043561A882930), whose %.17g text is 1.5e+20, is printed as 1.5e+2 under
+   JSON_C_TO_STRING_NOZERO — a valid JSON number whose value is 150. *)
+Definition w_bits : Z := 4908497940830202160.                               (* 0x442043561A882930 *)
+Definition w_text : list byte := [49;46;53;101;43;50;48].                    (* 1.5e+20 *)
+Definition w_fmt17 : Z -> list byte := fun _ => w_text.
+Definition w_tok : numtok := mknum false [49] (Some [53]) (Some (false, EPlus, [50;48])).
+Definition w_flags : sflags := mkfl false false true false false false.     (* JSON_C_TO_STRING_NOZERO *)
+
+Lemma w_fmt17_ok : fmt17_ok w_fmt17.
+Proof.
+  intros bits _. exists w_tok. split; [|reflexivity].
+  repeat split; try reflexivity; cbn; lia.
+Qed.
+
+Theorem nozero_refuted : ~ flags_only_whitespace.
+Proof.
+  intros H. specialize (H w_fmt17 w_fmt17_ok w_flags (JDouble w_bits None)).
+  assert (G : jv_Forall (node_ok w_fmt17 (mkfl false false false false false false)) (JDouble w_bits None)).
+  { cbn. repeat split. left. reflexivity. }
+  specialize (H G). vm_compute in H. discriminate.
+Qed.
+
+(* the same witness against "denotes exactly the tree": the text under NOZERO is the token
+   1.5e+2, whose exact value differs from that of the %.17g text *)
+Theorem nozero_value_refuted :
+  serialize w_fmt17 w_flags 0 (JDouble w_bits None) = [49;46;53;101;43;50] /\
+  serialize w_fmt17 flags_plain 0 (JDouble w_bits None) = w_text /\
+  exists n, num_ok n = true /\ render_num n = serialize w_fmt17 w_flags 0 (JDouble w_bits None) /\
+            ~ dec_eq (num_val n) (num_val w_tok).
+Proof.
+  split; [vm_compute; reflexivity|]. split; [vm_compute; reflexivity|].
+  exists (mknum false [49] (Some [53]) (Some (false, EPlus, [50]))). split; [reflexivity|]. split; [vm_compute; reflexivity|].
+  unfold dec_eq. vm_compute. discriminate.
+Qed.
+
+(* the repaired scan (stop at the exponent): nozero_span := split_exp.  With it the trimming
+   never touches an exponent: the text keeps its exponent part verbatim *)
+Lemma split_exp_app l : fst (split_exp l) ++ snd (split_exp l) = l.
+Proof.
+  induction l as [|x r IH]; [reflexivity|]. cbn [split_exp]. destruct ((x =? 101) || (x =? 69)); [reflexivity|].
+  destruct (split_exp r) as [a b]. cbn [fst snd app] in *. rewrite IH. reflexivity.
+Qed.
+Theorem nozero_repaired_keeps_exponent fr e :
+  forallb digit fr = true -> exp_ok e = true ->
+  nozero_trim_with split_exp (fr ++ render_exp e) = trim_zeros fr ++ render_exp e.
+Proof.
+  intros Hfr He. unfold nozero_trim_with.
+  assert (H : split_exp (fr ++ render_exp e) = (fr, render_exp e)).
+  { induction fr as [|c fr IH].
+    - destruct e as [[[up sg] ds]|]; [|reflexivity]. cbn [app render_exp split_exp]. destruct up; reflexivity.
+    - cbn [forallb] in Hfr. apply andb_true_iff in Hfr. destruct Hfr as [Hc Hfr].
+      cbn [app split_exp]. unfold digit in Hc. replace ((c =? 101) || (c =? 69)) with false by lia.
+      rewrite (IH Hfr). reflexivity. }
+  rewrite H. reflexivity.
+Qed.
+
+(* ------------------------------------------------------------------ round trip through the tokener model *)
+From JC Require TokModel EqModel.
+
+Section RoundTrip.
+Variable fmt17 : Z -> list byte.
+Variable strtod : list byte -> Z.
+
+(* json_tokener_new(); json_tokener_parse_ex(tok, text, -1) *)
+Definition reparse (text : list byte) : option jv :=
+  match TokModel.tok_new 32 false false false with
+  | Some t => match TokModel.parse_ex_cstr strtod t text with
+              | TokModel.PR t' (Some v') => match TokModel.err t' with TokModel.TE_success => Some v' | _ => None end
+              | _ => None
+              end
+  | None => None
+  end.
+
+(* the three facts the property states about the round trip, for one tree and flag word:
+   json-c re-parses its own output, the result is json_object_equal to the original, and
+   serializing it again under the same flags reproduces the text *)
+Definition roundtrip_ok (fl : sflags) (v : jv) : Prop :=
+  exists v', reparse (serialize fmt17 fl 0 v) = Some v' /\
+             EqModel.jv_equal v v' = true /\
+             serialize fmt17 fl 0 v' = serialize fmt17 fl 0 v.
+Definition roundtrip_okb (fl : sflags) (v : jv) : bool :=
+  match reparse (serialize fmt17 fl 0 v) with
+  | Some v' => EqModel.jv_equal v v' && bytes_eqb (serialize fmt17 fl 0 v') (serialize fmt17 fl 0 v)
+  | None => false
+  end.
+Lemma roundtrip_okb_ok fl v : roundtrip_okb fl v = true -> roundtrip_ok fl v.
+Proof.
+  unfold roundtrip_okb, roundtrip_ok. destruct (reparse _) as [v'|]; [|discriminate]. intros H.
+  apply andb_true_iff in H. destruct H as [H1 H2]. exists v'. repeat split; [exact H1|apply bytes_eqb_eq, H2].
+Qed.
+End RoundTrip.
